@@ -1,6 +1,6 @@
 CONSTANTS
   Variant = "real"
-  Tick = 3600
+  Tick = 1
 INIT Init
 NEXT Next
 POSTCONDITION Done
